@@ -291,3 +291,49 @@ def gen_world_and_pool(rng, cfg, want_region=None, tries=60):
                 q["conds"] = []
         return world, pool
     return last
+
+
+# ------------------------------------------------------------------------------------------ rules / inference
+
+def gen_rule_pool(rng, cfg, world, kinds=("infer", "add")) -> dict:
+    """Pools whose queries build instances: infer(entity(T(f=e,...), conds)) and Add-conclusion rule trees."""
+    doms = sorted(world["domains"])
+    names = ["x", "y"][: max(1, min(2, cfg["n_vars"]))]
+    vars_ = [{"n": n, "t": "Item", "dom": rng.choice(doms), "kind": "list", "form": rng.choice(["let", "From"])}
+             for n in names]
+    cg = CondGen(rng, dict(cfg, vocab=[v for v in cfg["vocab"] if v in ("cmp2", "objeq", "in", "chain", "idx",
+                                                                         "call", "fp", "cp", "ht")]),
+                 world, names, {})
+    queries = []
+
+    def head():
+        if len(names) > 1 and rng.random() < 0.6:
+            return ["Pair", {"l": ["v", "x"], "r": ["v", "y"]}]
+        r = rng.random()
+        if r < 0.5:
+            return ["Solo", {"of": ["v", rng.choice(names)]}]
+        return ["Tagged", {"of": ["v", rng.choice(names)], "k": ["attr", ["v", rng.choice(names)], "a"]}]
+
+    def conds(n=None, depth=None):
+        d = cfg["depth"] if depth is None else depth
+        return [cg.cond(names, min(d, 2)) for _ in range(rng.choice([1, 1, 2]) if n is None else n)]
+
+    for qi in range(rng.choice([1, 1, 2])):
+        kind = rng.choice(list(kinds))
+        if kind == "infer":
+            queries.append({"id": f"q{qi}", "quant": rng.choice(["infer", "infer", "an"]), "mode": "rule",
+                            "shape": "entity", "sel": [], "head": head(), "conds": conds()})
+        else:
+            hv = f"v{qi}"
+            vars_.append({"n": hv, "t": "View", "dom": None, "form": "let"})
+
+            def node(depth):
+                n = {"add": head(), "children": []}
+                if depth > 0:
+                    for _ in range(rng.choice([0, 1, 1, 2])):
+                        n["children"].append({"kind": rng.choice(["refinement", "alternative", "next"]),
+                                              "conds": conds(1, 1), "node": node(depth - 1)})
+                return n
+            queries.append({"id": f"q{qi}", "quant": "an", "mode": "query", "shape": "entity", "sel": [hv],
+                            "conds": conds(), "rule": node(rng.choice([0, 1, 1, 2]))})
+    return {"vars": vars_, "queries": queries}
